@@ -12,14 +12,22 @@ patch = f"{wt}/out/patch.diff"
 if not os.path.exists(patch) or os.path.getsize(patch) == 0:
     sh(f"git -C {wt} diff -- docx2python > {patch}")
 meta = {"id": sid, "property": prop, "ran": []}
+# (no `git stash`: the stash is shared by all worktrees of a repository)
+cur = sh(f"git -C {wt} diff -- docx2python").stdout
+if cur.strip() != open(patch).read().strip():
+    print("NOTE: working tree differs from out/patch.diff: resetting the worktree to the patch")
+    sh(f"git -C {wt} checkout -- docx2python")
+    a = sh(f"git -C {wt} apply {patch}")
+    if a.returncode != 0:
+        print("patch does not apply:", a.stderr[-300:]); sys.exit(2)
 # 1. confirm: suite passes with the change, demo fails with and passes without
 t = sh(f"cd {wt} && /venv/bin/python -m pytest -q -p no:cacheprovider 2>&1 | tail -1", env=env)
 meta["suite_with_change"] = t.stdout.strip()
 d1 = sh(f"cd {wt} && /venv/bin/python out/demo.py", env=env)
 meta["demo_with_change"] = {"rc": d1.returncode, "tail": (d1.stdout + d1.stderr)[-300:]}
-sh(f"git -C {wt} stash")
+sh(f"git -C {wt} apply -R {patch}")
 d0 = sh(f"cd {wt} && /venv/bin/python out/demo.py", env=env)
-sh(f"git -C {wt} stash pop")
+sh(f"git -C {wt} apply {patch}")
 meta["demo_without_change"] = {"rc": d0.returncode, "tail": (d0.stdout + d0.stderr)[-200:]}
 ok = "140 passed" in meta["suite_with_change"] and d1.returncode != 0 and d0.returncode == 0
 meta["confirmed"] = ok
